@@ -199,16 +199,17 @@ def shard(ctx, si, payload):
         schedulers = payload["schedulers"]
         cases = [(25, p) for p in payload["pos25"]] + [(250, p) for p in payload["pos250"]]
         for name, kw in schedulers:
-            for n, pos in cases:
+            for ci_, (n, pos) in enumerate(cases):
+                exc = sched.FAULT_TYPES[(ci_ + len(name)) % len(sched.FAULT_TYPES)]
                 ctx.count("faults")
-                ctx.distinct.add(("fault", name, n, pos))
+                ctx.distinct.add(("fault", name, n, pos, exc.__name__))
                 try:
                     with dask.config.set(**kw):
-                        got = batch(sub(n), cloudf=sched.FailAt(pos))
+                        got = batch(sub(n), cloudf=sched.FailAt(pos, exc=exc))
                 except Exception:
                     continue  # expected: the failure surfaces as an error of the batch call
                 ref = seqn(n)
-                ctx.violation("faults", f"{name}: event {pos} of {n} failed but the batch call returned normally ({got[0].shape[0] if got[0].ndim else 'scalar'} results; {describe_diff(got, ref) if got[0].ndim else ''})", {"scheduler": name, "n": n, "position": pos})
+                ctx.violation("faults", f"{name}: event {pos} of {n} failed with {exc.__name__} but the batch call returned normally ({got[0].shape[0] if got[0].ndim else 'scalar'} results; {describe_diff(got, ref) if got[0].ndim else ''})", {"scheduler": name, "n": n, "position": pos})
         # a fault-free run with the same cloud function must still equal the model
         with dask.config.set(scheduler="synchronous"):
             judge(batch(sub(25), cloudf=sched.FailAt(None)), 25, "faults-control", "fault-free control with the fault-capable cloud function", {})
